@@ -85,7 +85,7 @@ class Ctx:
             except OSError:
                 pass
             for c in cmds:
-                rc, out = run(["go", "build", "-tags", "verif", "-o", os.path.join(BUILD, c), "./cmd/" + c],
+                rc, out = run(["go", "build", "-tags", "verif"] + modfile_args() + ["-o", os.path.join(BUILD, c), "./cmd/" + c],
                               cwd=HARNESS, env=GOENV, timeout=900)
                 if rc != 0:
                     self.violation(f"harness-build:{c}", f"harness command {c} no longer builds against {REPO} (an API the correspondence check uses changed or the tree does not compile with -tags verif)",
@@ -190,6 +190,19 @@ class Ctx:
               f"evaluations={cov['evaluations']} distinct={cov['distinct_nontrivial']} "
               f"violations={len(self.violations)} known={len(self.known_hits)} wall={ev['wall_s']}s")
         return 1 if self.violations else 0
+
+
+def modfile_args():
+    """When VERIF_REPO points at a scratch copy of the repository, build against it through an
+    alternate go.mod (the committed one replaces go.amzn.com by /repo)."""
+    if os.path.realpath(REPO) == "/repo":
+        return []
+    d = os.path.join(BUILD, "modfile")
+    os.makedirs(d, exist_ok=True)
+    with open(os.path.join(d, "go.mod"), "w") as f:
+        f.write(f"module verifharness\n\ngo 1.22\n\nrequire go.amzn.com v0.0.0\n\nreplace go.amzn.com => {os.path.realpath(REPO)}\n")
+    shutil.copy(os.path.join(REPO, "go.sum"), os.path.join(d, "go.sum"))
+    return ["-modfile=" + os.path.join(d, "go.mod")]
 
 
 def known_findings():
